@@ -22,7 +22,7 @@ Definition replace_event_period (e : event) (p : timeslot) : event :=
   {| eid := eid e; ts := floor_ms (tstart p); dur := slot_duration p; data := data e |}.
 
 (* The generator's yield: (e1, e2, ip). *)
-Definition eventpair := (event * event * timeslot)%type.
+Notation eventpair := (event * event * timeslot)%type (only parsing).
 
 (* _intersecting_eventpairs after its two sorts.  The indices e1_i / e2_i only ever
    advance, so the state is the pair of remaining suffixes events1[e1_i:], events2[e2_i:].
